@@ -33,6 +33,7 @@ type relayFaults struct {
 	fullFor    time.Duration
 	latMin     time.Duration
 	latMax     time.Duration
+	injectPm   int // after a Send, the relay also delivers a forged message (C07)
 }
 
 type relayMsg struct {
@@ -228,6 +229,12 @@ func (s *sendStream) Send(m *hashmailrpc.CipherBox) error {
 		at = b.q[n-1].at // the relay keeps order
 	}
 	b.q = append(b.q, relayMsg{msg, at})
+	if faulty && simrt.Pm(r.f.injectPm, "relay.inject") {
+		forged := r.forge(msg)
+		b.q = append(b.q, relayMsg{forged, at})
+		r.rc.Fault("relay-inject")
+		simrt.NoteSig("relay injects %s into %s", simrt.Hex(forged, 8), id[:8])
+	}
 	wake := b.wake
 	r.mu.Unlock()
 	select {
@@ -398,4 +405,44 @@ func (r *relay) sidCount(id string) int {
 	r.mu.Lock()
 	defer r.mu.Unlock()
 	return r.sids[id]
+}
+
+// forge produces a relay-made message: garbage, a forged GBN control or data
+// packet, a truncated / extended / bit-flipped copy of the authentic message,
+// or a replay of something seen earlier in either direction.
+func (r *relay) forge(authentic []byte) []byte {
+	pick := func(n int, l string) int { return simrt.Choose(n, l) }
+	switch pick(8, "forge.kind") {
+	case 0:
+		b := make([]byte, pick(40, "forge.len"))
+		for i := range b {
+			b[i] = byte(pick(256, "forge.byte"))
+		}
+		return b
+	case 1: // GBN control packets with arbitrary field values
+		return []byte{byte(1 + pick(6, "forge.type")), byte(pick(256, "forge.seq"))}
+	case 2: // GBN DATA with garbage payload (reaches MsgData.Deserialize if in sequence)
+		b := []byte{0x02, byte(pick(256, "forge.seq")), byte(pick(2, "forge.fin")), 0}
+		for i := 0; i < pick(12, "forge.plen"); i++ {
+			b = append(b, byte(pick(256, "forge.byte")))
+		}
+		return b
+	case 3: // truncated copy
+		return append([]byte(nil), authentic[:pick(len(authentic)+1, "forge.trunc")]...)
+	case 4: // extended copy
+		return append(append([]byte(nil), authentic...), byte(pick(256, "forge.ext")))
+	case 5: // bit flip
+		b := append([]byte(nil), authentic...)
+		if len(b) > 0 {
+			b[pick(len(b), "forge.pos")] ^= byte(1 << pick(8, "forge.bit"))
+		}
+		return b
+	case 6: // replay of an earlier message of any direction
+		if len(r.seen) > 0 {
+			return append([]byte(nil), r.seen[pick(len(r.seen), "forge.replay")].msg...)
+		}
+	case 7: // DATA claiming a huge control-message length
+		return []byte{0x02, byte(pick(256, "forge.seq")), 1, 0, 0, 0xff, 0xff, 0xff, 0xff, 1, 2, 3}
+	}
+	return []byte{}
 }
